@@ -284,6 +284,25 @@ def AddrOk (base size : Nat) (rs : List (Nat × Nat)) : Prop :=
 
 instance (base size : Nat) (rs : List (Nat × Nat)) : Decidable (AddrOk base size rs) := by unfold AddrOk; infer_instance
 
+/-- What the command stream generator must be handed for the slice starting at channel `depth`:
+    `sel` = the ranges of that slice in stream order.  Read in place (`buf = none`) a range sits at
+    `base + offset`; through a buffered copy (`buf = some b`) the DMA moves the bytes from the first
+    range's offset to the (16-byte rounded) end of the last one to `b`, so a range sits at
+    `b + (offset − first offset)`.  Returns (weight ranges, scale ranges, DMA source, DMA destination). -/
+def expectedAddrs (base : Nat) (buf : Option Nat) (rs : List ARange) (depth : Nat) :
+    List (Nat × Nat) × List (Nat × Nat) × Option ((Nat × Nat) × (Nat × Nat)) :=
+  let sel := rs.filter (fun r => r.depth = depth)
+  match sel.head?, sel.getLast? with
+  | some r0, some rl =>
+    let org : ARange → Nat := fun r => match buf with
+      | none => base + r.offset
+      | some b => b + (r.offset - r0.offset)
+    let span := roundUp16 rl.stop - r0.offset
+    (sel.map (fun r => (org r + r.weightOffset, roundUp16 r.weightBytes)),
+     sel.map (fun r => (org r, roundUp16 r.scaleBytes)),
+     (if r0.core = 0 then some ((base + r0.offset, span), (buf.getD 0, span)) else none))
+  | _, _ => ([], [], none)
+
 /-! ### buffers the scheduler allocates for the slices -/
 
 /-- slice `i` (DMA size `sliceBytes[i]`) is copied into buffer `i mod n`; every buffer must hold every
